@@ -370,7 +370,26 @@ func (x *Exec) blockingPoint(st *State, in ssa.Instruction, kind, text string, c
 					continue
 				}
 			}
-			o := x.oblig(fmt.Sprintf("lockhold[%s while holding %s]@%s", desc, lname, x.srcOf(in)), "effect", x.W.lockProps[lname], in.Pos())
+			allowed := false
+			if mon != nil {
+				meth := strings.Fields(text + " ")[0]
+				if i := strings.LastIndex(meth, "."); i >= 0 {
+					meth = meth[i+1:]
+				}
+				for _, a := range mon.Allows {
+					if meth == a {
+						allowed = true
+					}
+				}
+			}
+			if allowed {
+				continue
+			}
+			var props []string
+			if mon != nil {
+				props = mon.Props
+			}
+			o := x.oblig(fmt.Sprintf("lockhold[%s while holding %s]@%s", desc, lname, x.srcOf(in)), "effect", props, in.Pos())
 			x.Assert(st, o, False)
 		}
 	}
@@ -390,6 +409,14 @@ func (x *Exec) blockingPoint(st *State, in ssa.Instruction, kind, text string, c
 	case strings.HasPrefix(eff, "until "):
 		if kind == "lock" && x.W.shortLocks[text] {
 			return
+		}
+		if kind == "call" {
+			for _, ok := range strings.Split(x.fc.Opts["external-ok"], ",") {
+				if ok != "" && strings.Contains(text, ok) {
+					x.note("external blocking call %s trusted to return once its stream context is cancelled", ok)
+					return
+				}
+			}
 		}
 		target := x.effectTarget(st)
 		if kind == "select" {
@@ -441,6 +468,15 @@ func (x *Exec) effectOfCall(st *State, in ssa.Instruction, fc *FuncContract, nam
 	if eff == "" || eff == "never" {
 		return
 	}
+	if x.fc != nil {
+		for _, ok := range strings.Split(x.fc.Opts["external-ok"], ",") {
+			if ok != "" && strings.Contains(name, ok) {
+				x.note("blocking callee %s accepted: it returns once the stream context derived from the channel's parent context is cancelled (trusted)", name)
+				x.blockingPointCall(st, in, name)
+				return
+			}
+		}
+	}
 	if strings.HasPrefix(eff, "until ") && x.fc != nil && strings.HasPrefix(x.fc.Blocks, "until ") {
 		// callee blocks until its own designated context: must be ours
 		c, err := parseClause(strings.TrimPrefix(eff, "until "), fc.File, fc.Line)
@@ -461,7 +497,27 @@ func (x *Exec) blockingPointCall(st *State, in ssa.Instruction, name string) {
 	for _, h := range st.held {
 		mon, lname := x.monitorFor(h.Key)
 		if mon != nil || x.W.shortLocks[lname] {
-			o := x.oblig(fmt.Sprintf("lockhold[call %s while holding %s]@%s", name, lname, x.srcOf(in)), "effect", x.W.lockProps[lname], in.Pos())
+			var props []string
+			allowed := false
+			if mon != nil {
+				props = mon.Props
+				meth := name
+				if i := strings.LastIndex(meth, "."); i >= 0 {
+					meth = meth[i+1:]
+				}
+				for _, a := range mon.Allows {
+					if meth == a {
+						allowed = true
+					}
+				}
+			}
+			if allowed {
+				continue
+			}
+			if i := strings.LastIndex(name, "/"); i >= 0 {
+				name = "(" + name[i+1:]
+			}
+			o := x.oblig(fmt.Sprintf("lockhold[call %s while holding %s]@%s", name, lname, x.srcOf(in)), "effect", props, in.Pos())
 			x.Assert(st, o, False)
 		}
 	}
